@@ -50,14 +50,18 @@ ISA = {   # kind of the operand -> truth value of isinstance(operand, T)
     'unit': {'Rational': False, 'Real': False, 'SIPrefix': False, 'Unit': True, 'Quantity': False},
     'qty':  {'Rational': False, 'Real': False, 'SIPrefix': False, 'Unit': False, 'Quantity': True},
     'int':  {'int': True},
+    # operands of an exchange rate: a Money amount, a quantity of another type
+    'money': {'Money': True, 'ExchangeRate': False, 'Quantity': True},
+    'pqty':  {'Money': False, 'ExchangeRate': False, 'Quantity': True},
 }
 OPK = {'mul': 'KMul', 'truediv': 'KDiv'}
 
 
 class Fn:
-    def __init__(self, cls, meth, selfk, otherk, coqname, level):
+    def __init__(self, cls, meth, selfk, otherk, coqname, level, file='__init__.py'):
         self.cls, self.meth, self.selfk, self.otherk = cls, meth, selfk, otherk
         self.coqname, self.level = coqname, level      # level: 'pair' | 'mres'
+        self.file = file
 
 
 FUNCS = [
@@ -86,6 +90,14 @@ FUNCS = [
     Fn('Quantity', '__pow__', 'qty', 'int', 'Q_pow', 'mres'),
 ]
 
+# money/__init__.py: an exchange rate applied to money and to money-per-quantity values
+MONEY_FUNCS = [
+    Fn('ExchangeRate', '__mul__', 'rate', 'money', 'R_mul_money', 'mres', 'money/__init__.py'),
+    Fn('ExchangeRate', '__mul__', 'rate', 'pqty', 'R_mul_qty', 'mres', 'money/__init__.py'),
+    Fn('ExchangeRate', '__rtruediv__', 'rate', 'money', 'R_rdiv_money', 'mres', 'money/__init__.py'),
+    Fn('ExchangeRate', '__rtruediv__', 'rate', 'pqty', 'R_rdiv_qty', 'mres', 'money/__init__.py'),
+]
+
 
 def is_name(e, n):
     return isinstance(e, ast.Name) and e.id == n
@@ -110,8 +122,15 @@ class Tr:
         if isinstance(e, ast.Name) and env.get(e.id, ('',))[0] == 'unit':
             return env[e.id][1]
         if isinstance(e, ast.Attribute) and e.attr in ('unit', '_unit') \
-                and isinstance(e.value, ast.Name) and env.get(e.value.id, ('',))[0] == 'qty':
+                and isinstance(e.value, ast.Name) \
+                and env.get(e.value.id, ('',))[0] in ('qty', 'money', 'pqty'):
             return env[e.value.id][2]
+        if isinstance(e, ast.Attribute) and isinstance(e.value, ast.Name) \
+                and env.get(e.value.id, ('',))[0] == 'rate':
+            if e.attr in ('unit_currency', '_unit_currency'):
+                return env[e.value.id][1]
+            if e.attr in ('term_currency', '_term_currency'):
+                return env[e.value.id][2]
         return None
 
     def cls_of(self, e, env):
@@ -153,8 +172,12 @@ class Tr:
                 return [], env[a.id][1]          # exact value of the float
             fail(e, "Decimal(...) of something that is not the float operand")
         if isinstance(e, ast.Attribute) and e.attr in ('amount', '_amount') \
-                and isinstance(e.value, ast.Name) and env.get(e.value.id, ('',))[0] == 'qty':
+                and isinstance(e.value, ast.Name) \
+                and env.get(e.value.id, ('',))[0] in ('qty', 'money', 'pqty'):
             return [], env[e.value.id][1]
+        if isinstance(e, ast.Attribute) and e.attr in ('rate', 'inverse_rate') \
+                and isinstance(e.value, ast.Name) and env.get(e.value.id, ('',))[0] == 'rate':
+            return [], env[e.value.id][3 if e.attr == 'rate' else 4]
         if isinstance(e, ast.Attribute) and e.attr == '_equiv':
             u = self.unit_of(e.value, env)
             if u and ('equiv', u) in env:
@@ -184,6 +207,11 @@ class Tr:
 
     # ---- term literals: UnitDefT(((u, 1), (v, -1))) ------------------------------------
     def nf_of(self, e, env):
+        if isinstance(e, ast.BinOp) and isinstance(e.op, ast.Mult) \
+                and isinstance(e.left, ast.Attribute) and e.left.attr == 'definition' \
+                and self.unit_of(e.left.value, env):
+            # unit.definition * term: the product of the denotations
+            return f"(nf_mul (ru_nf {self.unit_of(e.left.value, env)}) {self.nf_of(e.right, env)})"
         if not (isinstance(e, ast.Call) and is_name(e.func, 'UnitDefT') and len(e.args) == 1
                 and isinstance(e.args[0], ast.Tuple)):
             fail(e, "term literal")
@@ -282,6 +310,14 @@ class Tr:
             return self.try_(st, rest, env, s)
         if isinstance(st, ast.Assign) and len(st.targets) == 1:
             return self.assign(st, rest, env, s)
+        if isinstance(st, ast.AugAssign) and isinstance(st.op, ast.Mult) \
+                and isinstance(st.target, ast.Name) and env.get(st.target.id, ('',))[0] == 'num':
+            c, t = self.num(st.value, env)
+            x = self.new(st.target.id)
+            env2 = dict(env)
+            env2[st.target.id] = ('num', x)
+            return self.guarded(c, s, f"let {x} := (qmul {env[st.target.id][1]} {t}) in\n"
+                                      f"{self.block(rest, env2, s)}")
         fail(st, "statement")
 
     def rais(self, st, s):
@@ -292,6 +328,10 @@ class Tr:
                 return f"({s}, Err EUndefinedResult)"
             if name == 'UnitConversionError':
                 return f"({s}, Err EUnitConversion)"
+            if name == 'ValueError' and self.fn.selfk == 'rate':
+                return f"({s}, Err EValueError)"
+            if name == 'QuantityError' and self.fn.selfk == 'rate':
+                return f"({s}, Err EQuantityError)"
         fail(st, "raise")
 
     def ret(self, st, env, s):
@@ -320,6 +360,18 @@ class Tr:
             if ok:
                 c, t = self.num(v.args[0], env)
                 return self.guarded(c, s, f"({s}, Ok (MQty (mk_qty dm {t} (view {s} {u}))))")
+            if isinstance(f, ast.Attribute) and f.attr == '__class__' and isinstance(f.value, ast.Name) \
+                    and env.get(f.value.id, ('',))[0] == 'money' and u:
+                # Money(x, currency): currencies are units of Money
+                c, t = self.num(v.args[0], env)
+                return self.guarded(c, s, f"({s}, Ok (MQty (mk_qty dm {t} (view {s} {u}))))")
+            if isinstance(f, ast.Attribute) and f.attr == '__class__' and isinstance(f.value, ast.Name) \
+                    and env.get(f.value.id, ('',))[0] == 'pqty' and isinstance(v.args[1], ast.Name) \
+                    and env.get(v.args[1].id, ('',))[0] == 'ounit':
+                # cls(x, unit-or-None) for the operand's own class: the unit must belong to it
+                c, t = self.num(v.args[0], env)
+                return self.guarded(c, s, f"({s}, construct_in {s} dm (ru_cls {env[f.value.id][2]}) "
+                                          f"{t} {env[v.args[1].id][1]})")
             fail(st, "constructor call")
         # number * unit-or-None
         if isinstance(v, ast.BinOp) and isinstance(v.op, ast.Mult) and isinstance(v.right, ast.Name) \
@@ -436,7 +488,9 @@ class Tr:
                     f"{self.block(rest, env, s2)}")
         if isinstance(tg, ast.Name):
             env2 = dict(env)
-            if isinstance(v, ast.Call) and is_name(v.func, 'UnitDefT'):
+            if (isinstance(v, ast.Call) and is_name(v.func, 'UnitDefT')) or \
+                    (isinstance(v, ast.BinOp) and isinstance(v.left, ast.Attribute)
+                     and v.left.attr == 'definition'):
                 env2[tg.id] = ('nf', self.nf_of(v, env))
                 return self.block(rest, env2, s)
             if is_none(v):
@@ -511,48 +565,76 @@ PRELUDE = '''(* GENERATED by /verif/translate/oplayer.py from src/quantity/__ini
    Quantity.__mul__ / __truediv__ / __rtruediv__ / __pow__, once per kind of the
    second operand (num = Rational, real = float taken at its exact value, unit,
    qty, int).  Quantity.__rmul__ = __mul__ and Unit.__rmul__ = self.__mul__(other)
-   are checked by the translator.  Do not edit; rewritten on every run. *)
+   are checked by the translator.  From src/quantity/money/__init__.py:
+   ExchangeRate.__mul__ (= __rmul__, checked) and __rtruediv__ for a Money operand
+   and for a quantity of another type.  Do not edit; rewritten on every run. *)
 From Coq Require Import ZArith QArith List Bool.
 From QV Require Import Model.Num Model.Rounding Model.Quantity Model.Dim Model.Registry
-     Gen.QuantityImpl.
+     Model.Rates Model.RegRates Gen.QuantityImpl.
 Open Scope Z_scope.
 
 '''
 
 PARAMS = {'unit': lambda n: f"({n} : runit)", 'num': lambda n: f"({n} : Q)",
           'real': lambda n: f"({n} : Q)", 'int': lambda n: f"({n} : Z)",
-          'qty': lambda n: f"({n}_amount : Q) ({n}_unit : runit)"}
+          'qty': lambda n: f"({n}_amount : Q) ({n}_unit : runit)",
+          'money': lambda n: f"({n}_amount : Q) ({n}_unit : runit)",
+          'pqty': lambda n: f"({n}_amount : Q) ({n}_unit : runit)",
+          'rate': lambda n: f"({n}_unit_currency {n}_term_currency : runit) ({n}_rate {n}_inverse_rate : Q)"}
+
+
+def _emit(tree, fn, out):
+    m, _ = find_method(tree, fn.cls, fn.meth)
+    names = [a.arg for a in m.args.args]
+    # a trailing `_op_cache=_UNIT_OP_CACHE` default parameter is the global cache
+    if names[-1:] == ['_op_cache']:
+        if not (len(m.args.defaults) == 1 and is_name(m.args.defaults[0], '_UNIT_OP_CACHE')):
+            raise Unsupported(f"{fn.cls}.{fn.meth}: cache parameter")
+        names = names[:-1]
+    elif m.args.defaults:
+        raise Unsupported(f"{fn.cls}.{fn.meth}: default values")
+    if len(names) != 2 or names[0] != 'self' or m.args.vararg or m.args.kwarg or m.args.kwonlyargs:
+        raise Unsupported(f"{fn.cls}.{fn.meth}: signature {names}")
+    o = names[1]
+    env = {}
+    for n, k in (('self', fn.selfk), (o, fn.otherk)):
+        if k in ('qty', 'money', 'pqty'):
+            env[n] = (k, f"{n}_amount", f"{n}_unit")
+        elif k == 'rate':
+            env[n] = (k, f"{n}_unit_currency", f"{n}_term_currency", f"{n}_rate",
+                      f"{n}_inverse_rate")
+        else:
+            env[n] = (k, n)
+    tr = Tr(fn)
+    body = tr.block(m.body, env, 's')
+    params = f"{PARAMS[fn.selfk]('self')} {PARAMS[fn.otherk](o)}"
+    if fn.level == 'pair':
+        sig = f"(s : state) {params} : state * res (Q * option N)"
+    else:
+        sig = f"(s : state) (dm : mode) (ce : convenv) {params} : state * res mres"
+    out.append(f"(* {fn.cls}.{fn.meth}, second operand: {fn.otherk} *)\n"
+               f"Definition {fn.coqname} {sig} :=\n{body}.\n")
 
 
 def generate(path):
+    """path: src/quantity/__init__.py; the money module is taken from the same tree"""
     tree = ast.parse(open(path, encoding='utf-8').read())
     check_reflected(tree)
     out = [PRELUDE]
     for fn in FUNCS:
-        m, _ = find_method(tree, fn.cls, fn.meth)
-        names = [a.arg for a in m.args.args]
-        # a trailing `_op_cache=_UNIT_OP_CACHE` default parameter is the global cache
-        if names[-1:] == ['_op_cache']:
-            if not (len(m.args.defaults) == 1 and is_name(m.args.defaults[0], '_UNIT_OP_CACHE')):
-                raise Unsupported(f"{fn.cls}.{fn.meth}: cache parameter")
-            names = names[:-1]
-        elif m.args.defaults:
-            raise Unsupported(f"{fn.cls}.{fn.meth}: default values")
-        if len(names) != 2 or names[0] != 'self' or m.args.vararg or m.args.kwarg or m.args.kwonlyargs:
-            raise Unsupported(f"{fn.cls}.{fn.meth}: signature {names}")
-        o = names[1]
-        env = {}
-        for n, k in (('self', fn.selfk), (o, fn.otherk)):
-            env[n] = ('qty', f"{n}_amount", f"{n}_unit") if k == 'qty' else (k, n)
-        tr = Tr(fn)
-        body = tr.block(m.body, env, 's')
-        params = f"{PARAMS[fn.selfk]('self')} {PARAMS[fn.otherk](o)}"
-        if fn.level == 'pair':
-            sig = f"(s : state) {params} : state * res (Q * option N)"
-        else:
-            sig = f"(s : state) (dm : mode) (ce : convenv) {params} : state * res mres"
-        out.append(f"(* {fn.cls}.{fn.meth}, second operand: {fn.otherk} *)\n"
-                   f"Definition {fn.coqname} {sig} :=\n{body}.\n")
+        _emit(tree, fn, out)
+    mpath = os.path.join(os.path.dirname(path), 'money', '__init__.py')
+    mtree = ast.parse(open(mpath, encoding='utf-8').read())
+    for n in mtree.body:
+        if isinstance(n, ast.ClassDef) and n.name == 'ExchangeRate':
+            al = [m for m in n.body if isinstance(m, ast.Assign)
+                  and any(is_name(t, '__rmul__') for t in m.targets)]
+            if not (len(al) == 1 and is_name(al[0].value, '__mul__') and len(al[0].targets) == 1):
+                raise Unsupported("ExchangeRate.__rmul__ is not `__rmul__ = __mul__`")
+            if [m for m in n.body if isinstance(m, ast.FunctionDef) and m.name == '__rmul__']:
+                raise Unsupported("ExchangeRate.__rmul__ defined as a function as well")
+    for fn in MONEY_FUNCS:
+        _emit(mtree, fn, out)
     return "\n".join(out)
 
 
